@@ -126,8 +126,8 @@ var emptyKeys = []string{"em", "el"}
 var litGen = rapid.StringMatching(`[a-z][a-z0-9._/-]{0,4}`)
 
 // cfgLitGen: configured texts may contain what would be argument syntax in a tag (a value is data, never tag text)
-var cfgLitGen = rapid.OneOf(litGen, litGen, rapid.SampledFrom([]string{"a, b", "k=v", "x,required=false", "p q"}))
-var defGen = rapid.OneOf(rapid.StringMatching(`[a-z][a-z0-9._-]{0,4}`), rapid.SampledFrom([]string{"", "d", "http://h.x:80", "x-1", "Dear ", " x", " ", "a b ", "123456789", "16777217", "3.141592653589793", "0.1", "9007199254740993", "007", "1.50", "TRUE", "00501", "+5", "1.0"}))
+var cfgLitGen = rapid.OneOf(litGen, litGen, rapid.SampledFrom([]string{"a, b", "k=v", "x,required=false", "p q", "pa$$word", "$x", "x$"}))
+var defGen = rapid.OneOf(rapid.StringMatching(`[a-z][a-z0-9._-]{0,4}`), rapid.SampledFrom([]string{"", "d", "http://h.x:80", "x-1", "Dear ", " x", " ", "a b ", "123456789", "16777217", "3.141592653589793", "0.1", "9007199254740993", "007", "1.50", "TRUE", "00501", "+5", "1.0", "US$", "^[a-z]+$", "$HOME/x", "a$b"}))
 
 func genPlaceholder(t *rapid.T, depth int, allowAbsent bool) string {
 	var key string
@@ -366,6 +366,13 @@ func TestPrefix(t *testing.T) {
 		}
 		ph := rapid.SampledFrom([]string{"${s1}", "${s1:two}", "${s2:x}", "${zz:one}", "${zz}", "${el:two}"}).Draw(t, "ph")
 		text := "tbl." + ph
+		if rapid.IntRange(0, 2).Draw(t, "phprefix") == 0 {
+			// the key text begins AND ends with a placeholder
+			flat["tb"] = "tbl"
+			text = "${tb}." + ph
+		}
+		// the same key text under the prop shorthand names the key whose VALUE is bound (prop:"k" is value:"${k}")
+		carrier := rapid.SampledFrom([]string{"prefix", "prefix", "prop"}).Draw(t, "carrier")
 		opt := rapid.Bool().Draw(t, "optional")
 		tag := text
 		if opt {
@@ -374,9 +381,9 @@ func TestPrefix(t *testing.T) {
 		r := &ref{cfg: flat}
 		key, rerr := r.resolve(text, map[string]bool{})
 		dc := kit.DrawDecoys(t)
-		obj := structWith(dc, reflect.TypeOf(0), "prefix", tag)
+		obj := structWith(dc, reflect.TypeOf(0), carrier, tag)
 		out, _ := runWith(flat, 100*r.steps+1000, obj.Interface())
-		desc := fmt.Sprintf("prefix:%q cfg{%s}%s", tag, cfgString(flat), dc)
+		desc := fmt.Sprintf("%s:%q cfg{%s}%s", carrier, tag, cfgString(flat), dc)
 		decoysOK(t, dc, out, obj, desc)
 		if out.Panic != nil {
 			t.Fatalf("C16: panic %v\n%s", out.Panic, desc)
@@ -400,7 +407,7 @@ func TestPrefix(t *testing.T) {
 				t.Fatalf("C16: prefix resolves to the absent key %q on a required field, yet start-up succeeded with %d\n%s", key, got, desc)
 			}
 		}
-		kit.Rec.Case(desc, true, "prefix-carrier", fmt.Sprintf("present-%v", present))
+		kit.Rec.Case(desc, true, carrier+"-carrier", fmt.Sprintf("present-%v", present))
 		_ = valueHasPh
 	})
 }
